@@ -21,7 +21,7 @@ import (
 
 const modPath = "x.io/test"
 
-var docForms = []string{"none", "line", "two-lines", "block", "detached", "with-tags"}
+var docForms = []string{"none", "line", "two-lines", "block", "detached", "with-tags", "block-multiline", "two-blocks-on-one-line", "block-then-line"}
 var kinds = []string{"type-ungrouped", "type-grouped", "field", "field-multi", "const-grouped", "const-ungrouped", "var-ungrouped",
 	"field-multiline-type", "type-grouped-multiline", "var-grouped-multiline-value", "type-ungrouped-multiline"}
 
@@ -63,6 +63,16 @@ func docText(form int, name, indent string) (src string, doc []string, tags map[
 	case "block":
 		src = indent + "/* block doc of " + name + " */\n"
 		doc = []string{"block doc of " + name}
+	case "block-multiline":
+		src = indent + "/* block doc of " + name + "\nsecond block line\n+gengo:y=" + name + " */\n"
+		doc = []string{"block doc of " + name, "second block line"}
+		tags = map[string][]string{"gengo:y": {name}}
+	case "two-blocks-on-one-line":
+		src = indent + "/* first of " + name + " */ /* second of " + name + " */\n"
+		doc = []string{"first of " + name, "second of " + name}
+	case "block-then-line":
+		src = indent + "/* block of " + name + " */\n" + indent + "// line of " + name + "\n"
+		doc = []string{"block of " + name, "line of " + name}
 	case "detached":
 		src = indent + "// detached comment above " + name + "\n\n"
 	case "with-tags":
@@ -457,7 +467,7 @@ func replay(c *core.Ctx, raw json.RawMessage) {
 func init() {
 	core.Register(&core.Prop{
 		ID: "C12", Level: "model_checking", Run: run, Replay: replay,
-		Rule: "layouts: every assignment of (doc form in {none, line, two lines, block, detached, with tag lines} x trailing comment yes/no) to 3 (thorough: 4 for two kinds) consecutive declarations, for 11 declaration kinds (ungrouped/grouped types, struct fields, multi-name fields, grouped/ungrouped consts, vars, and multi-line declarations whose trailing comment sits on the closing line: fields of struct type, grouped/ungrouped struct types, grouped vars with multi-line values); one source file per layout loaded by the real loader; Doc/tags/Comment of every declared object vs the harness' own knowledge of what it wrote (asked twice, the first answer overwritten by the caller in between). Tag extraction: every single line <=5 (6) over an 8-symbol alphabet (also with custom markers), every pair of lines <=3. Non-trivial = layouts with at least one doc or trailing comment / inputs with at least one tag; states = distinct layout classes / (tags, other lines) counts",
+		Rule: "layouts: every assignment of (doc form in {none, line, two lines, block, detached, with tag lines, multi-line block with a tag line, two blocks on one line, block followed by a line comment} x trailing comment yes/no) to 3 (thorough: 4 for two kinds) consecutive declarations, for 11 declaration kinds (ungrouped/grouped types, struct fields, multi-name fields, grouped/ungrouped consts, vars, and multi-line declarations whose trailing comment sits on the closing line: fields of struct type, grouped/ungrouped struct types, grouped vars with multi-line values); one source file per layout loaded by the real loader; Doc/tags/Comment of every declared object vs the harness' own knowledge of what it wrote (asked twice, the first answer overwritten by the caller in between). Tag extraction: every single line <=5 (6) over an 8-symbol alphabet (also with custom markers), every pair of lines <=3. Non-trivial = layouts with at least one doc or trailing comment / inputs with at least one tag; states = distinct layout classes / (tags, other lines) counts",
 		Assumptions: []string{
 			"doc lines starting with 'go:' or with leading/trailing blanks are outside the alphabet",
 			"other (non-tag) lines are compared modulo surrounding spaces",
